@@ -22,17 +22,19 @@ Base(b) == [k |-> "base", b |-> b]
 Wrap(kind, u) == [k |-> kind, t |-> u]
 
 IsRef(u) == u.k \in {"ref", "rref"}
-IsFn(u) == u.k \in {"fn0", "fn1", "fn2"}
+IsFn(u) == u.k \in {"fn0", "fn1", "fn2", "cfn0", "cfn1"}
+IsCFn(u) == u.k \in {"cfn0", "cfn1"}      \* const-qualified function types: only below a pointer to member
 IsArr(u) == u.k \in {"arr2", "arr3"}
 IsVoid(u) == u.k = "base" /\ u.b = "void"
 
 \* C++ well-formedness of applying a constructor to u  ([dcl.ptr], [dcl.ref], [dcl.array], [dcl.fct])
 Allowed(kind, u) ==
-  CASE kind = "const" -> u.k \notin {"const", "ref", "rref"} /\ ~IsFn(u) /\ ~IsArr(u) /\ ~IsVoid(u)
+  CASE IsCFn(u) -> kind = "mptr"
+    [] kind = "const" -> u.k \notin {"const", "ref", "rref"} /\ ~IsFn(u) /\ ~IsArr(u) /\ ~IsVoid(u)
     [] kind = "ptr" -> ~IsRef(u)
     [] kind \in {"ref", "rref"} -> ~IsRef(u) /\ ~IsVoid(u)
     [] kind \in {"arr2", "arr3"} -> ~IsRef(u) /\ ~IsFn(u) /\ ~IsVoid(u)
-    [] kind \in {"fn0", "fn1", "fn2"} -> ~IsFn(u) /\ ~IsArr(u) /\ u.k # "const"   \* as return type
+    [] kind \in {"fn0", "fn1", "fn2", "cfn0", "cfn1"} -> ~IsFn(u) /\ ~IsArr(u) /\ u.k # "const"   \* as return type
     [] kind = "mptr" -> ~IsRef(u) /\ ~IsVoid(u)
 
 Init == t \in {Base(b) : b \in Bases} /\ depth = 0 /\ east \in BOOLEAN
@@ -46,7 +48,8 @@ Spec == Init /\ [][Step]_vars
 Sp(a, b) == IF a = "" THEN b ELSE IF b = "" THEN a ELSE a \o " " \o b
 
 \* parameter lists of the three function constructors (fixed, simple)
-ParamText(kind) == CASE kind = "fn0" -> "" [] kind = "fn1" -> "int" [] kind = "fn2" -> "const char *, S &"
+ParamText(kind) == CASE kind \in {"fn0", "cfn0"} -> "" [] kind \in {"fn1", "cfn1"} -> "int" [] kind = "fn2" -> "const char *, S &"
+FnSuffix(kind) == IF kind \in {"cfn0", "cfn1"} THEN " const" ELSE ""
 ArrText(kind) == IF kind = "arr2" THEN "[2]" ELSE "[3]"
 
 RECURSIVE Decl(_, _, _)
@@ -66,7 +69,7 @@ Decl(u, d, e) ==
              d2 == sym \o d
          IN IF IsFn(u.t) \/ IsArr(u.t) THEN Decl(u.t, "(" \o d2 \o ")", e) ELSE Decl(u.t, d2, e)
     [] IsArr(u) -> Decl(u.t, d \o ArrText(u.k), e)
-    [] IsFn(u) -> Decl(u.t, d \o "(" \o ParamText(u.k) \o ")", e)
+    [] IsFn(u) -> Decl(u.t, d \o "(" \o ParamText(u.k) \o ")" \o FnSuffix(u.k), e)
 
 Render(name) == Decl(t, name, east)
 
@@ -83,6 +86,8 @@ Struct(u) ==
     [] u.k = "fn0" -> "F<" \o Struct(u.t) \o ">"
     [] u.k = "fn1" -> "F<" \o Struct(u.t) \o ",int>"
     [] u.k = "fn2" -> "F<" \o Struct(u.t) \o ",P<C<char>>,L<S>>"
+    [] u.k = "cfn0" -> "CF<" \o Struct(u.t) \o ">"
+    [] u.k = "cfn1" -> "CF<" \o Struct(u.t) \o ",int>"
 
 RECURSIVE Shape(_)
 Shape(u) == IF u.k = "base" THEN <<u.b>> ELSE <<u.k>> \o Shape(u.t)
